@@ -270,13 +270,15 @@ def run_shard(shard, tier):
                 check_snapshot(acc, which, m, ['angular speed', 'load torque', 'pwm'], t, tu, {})
         acc.sample({'model': which, 'mode': 'target times', 'times_s': target_times(m)[:12], 'time_units': ['sec', 'ms', 'min', 'hour']})
         # history: snapshot, continue the simulation, snapshot / export again (old and new instants)
-        m.run([0.125, 'sec'], [0.5, 'sec'], duty=[1, 0.6, 0.8, 1, 0.3, None, 0.9, 1, 1, 0.5, -0.4, 1, 1])
+        # (the continuation is requested in ms: the recorded instants then carry two different units)
+        m.run([125.0, 'ms'], [500.0, 'ms'], duty=[1, 0.6, 0.8, 1, 0.3, None, 0.9, 1, 1, 0.5, -0.4, 1, 1])
         tmp = tempfile.mkdtemp(prefix='gmc_c18_')
         try:
             for t in target_times(m)[::3]:
                 check_snapshot(acc, which, m, None, t, 'sec', {}, tag='after-continuation')
                 check_snapshot(acc, which, m, ['torque', 'pwm'], t, 'ms', {'torque_unit': 'mNm'}, tag='after-continuation')
-            check_export(acc, which, m, 'sec', {}, tmp)
+            for tu in ('sec', 'ms', 'min'):
+                check_export(acc, which, m, tu, {}, tmp)
             m.pt.reset()
             m.apply_init()
             m.run([0.25, 'sec'], [1.0, 'sec'], duty=[0.5, 1, 1, 1, 1])
